@@ -24,7 +24,7 @@ import (
 	"verif/harness/xt"
 )
 
-const c13Rule = "rapid: LogoutRequests (any Issuer: registered / unregistered / absent / empty / look-alike; IDs and RelayState from an XML-legal alphabet with metacharacters; IssueInstant and NotOnOrAfter offsets from 1 s to 10 years in both directions and garbage lexical forms; optional NameID, SessionIndex, Reason, Destination; POST or Redirect transport with SAMLEncoding absent / DEFLATE / unknown; decode-level defects) against SP metadata with 0..3 SingleLogoutService entries and IdP issuer / SLO endpoint / time-format configurations. Oracle: status Success => the harness's own decoding of the sent bytes succeeds, the Issuer is a registered entity, IssueInstant is not in the future and NotOnOrAfter has not passed (3 s margin unasserted); InResponseTo = request ID whenever the harness could decode the request; Issuer = IdP entity ID for the request host in every reply; a form reply targets the first SLO Location registered for the issuing SP with Destination equal to it and the RelayState field equal to the submitted one; anything else is one XML document in the body. Non-trivial: a time-window or issuer condition is violated, or the SP has >= 2 SLO entries. Distinct by (condition vector, SLO shape, transport, reply kind)."
+const c13Rule = "rapid: LogoutRequests (any Issuer: registered / unregistered / absent / empty / look-alike; IDs and RelayState from an XML-legal alphabet with metacharacters, RelayStates of 79 to 4000 bytes; IssueInstant and NotOnOrAfter offsets from 1 s to 10 years in both directions and garbage lexical forms; optional NameID, SessionIndex, Reason, Destination; POST or Redirect transport with SAMLEncoding absent / DEFLATE / unknown; decode-level defects) against SP metadata with 0..3 SingleLogoutService entries and IdP issuer / SLO endpoint / time-format configurations. Oracle: status Success => the harness's own decoding of the sent bytes succeeds, the Issuer is a registered entity, IssueInstant is not in the future and NotOnOrAfter has not passed (3 s margin unasserted); InResponseTo = request ID whenever the harness could decode the request; Issuer = IdP entity ID for the request host in every reply; a form reply targets the first SLO Location registered for the issuing SP with Destination equal to it and the RelayState field equal to the submitted one; anything else is one XML document in the body. Non-trivial: a time-window or issuer condition is violated, or the SP has >= 2 SLO entries. Distinct by (condition vector, SLO shape, transport, reply kind)."
 
 type C13Case struct {
 	Spec    world.Spec      `json:"spec"`
@@ -129,6 +129,18 @@ func genC13Case(t *rapid.T) C13Case {
 			c.Tr.RelayState = u.Scheme + "://" + u.Host + "/after-logout?page=home"
 		} else {
 			c.Tr.RelayState = rapid.SampledFrom([]string{"https://elsewhere.example/return", "//elsewhere.example/x", "https://idp.example/"}).Draw(t, "relay-urlv")
+		}
+	} else if rapid.IntRange(0, 3).Draw(t, "relay-long") == 0 {
+		// lengths around the 80 bytes the bindings specification asks requesters to stay below, and far beyond: the value is the
+		// requester's, it comes back as it came
+		n := rapid.SampledFrom([]int{79, 80, 81, 107, 255, 256, 1024, 4000}).Draw(t, "relay-len")
+		v := c.Tr.RelayState + "|"
+		for len(v) < n {
+			v += "return-to/" + v
+		}
+		c.Tr.RelayState = string([]rune(v[:n]))
+		if len(c.Tr.RelayState) != n {
+			c.Tr.RelayState = strings.ToValidUTF8(v[:n], "_")
 		}
 	}
 	if rapid.Bool().Draw(t, "explicitenc") {
